@@ -24,6 +24,21 @@
 //!   random bytes, every/sampled truncation and single-bit flip of valid encodings, hostile length
 //!   prefixes. Oracle: Err or a valid value; no panic; no abort; largest single allocation request
 //!   within the decoder's declared limit (or c*input where none is declared).
+//!   g-hostile g-hostfile   structurally VALID encodings of semantically hostile values, built with the
+//!   crate's own encoders (compress_ids / compress_sparse / bitcode of the real containers, or of a
+//!   field-for-field mirror whose byte identity with the real encoder is checked at run time):
+//!   sparse fields whose position list is unsorted / duplicated / out of range (also before an
+//!   in-range position) / above 32 bits, value counts that differ from position counts, dimensions
+//!   0 / 1 / off by one / at and above SparseVector::MAX_DIMENSION, tensor-train fields whose cores do
+//!   not chain (ranks, modes, data counts, shape, core count, zero ranks, overflowing shape products),
+//!   run lengths without values, unsorted id lists. g-hostile decodes them as built and again after a
+//!   trip through the snapshot container (decompress_vector / decompress_ints), and feeds the
+//!   SparseVector wire form alone, in a sequence and inside a RequestVote frame to the real decoders;
+//!   g-hostfile writes them into a snapshot file and loads it with TensorStore::load_snapshot_compressed.
+//!   Oracle: Err or a valid value - no panic / abort / allocation above the ceiling, the declared
+//!   dimension, SparseVector invariants on whatever is accepted; the members of every family whose
+//!   encoded value is well defined (honest controls; sparse fields whose unique in-range pairs are
+//!   merely listed out of order; paired run lengths; any id list) must decode, exactly.
 
 use common::alloc as calloc;
 use common::*;
@@ -2808,6 +2823,834 @@ fn g_snapfile_case(cx: &mut GCtx, dir: &Path) {
     cx.r.eval(h, true);
 }
 
+// ---- g-hostile / g-hostfile: structurally VALID encodings of semantically hostile values -------
+//
+// The inputs of these two parts are not damaged bytes: every one is produced by the crate's own
+// encoders (compress_ids, compress_sparse, bitcode of the real container types, or of a
+// field-for-field mirror where the real type refuses to hold the value) from values that break what
+// the decoder would like to assume: position lists that are unsorted / duplicated / out of range /
+// above 32 bits, value counts that do not match position counts, dimensions 0 / 1 / off by one /
+// above the declared maximum, tensor-train cores that do not chain, run lengths without values.
+// A decoder cannot tell such bytes from honest ones by their structure, so everything it relies on
+// must be checked by the decoder itself. Oracle: Err or a valid value (never a panic / abort /
+// allocation above the ceiling); where the encoded value is well defined (the controls, and pairs
+// that are merely listed out of order) it must come back exactly.
+
+#[derive(serde::Serialize)]
+struct SvMirror {
+    dimension: usize,
+    positions: Vec<u32>,
+    values: Vec<f32>,
+}
+#[derive(serde::Serialize)]
+struct RvMirror {
+    term: u64,
+    candidate_id: String,
+    last_log_index: u64,
+    last_log_term: u64,
+    state_embedding: SvMirror,
+}
+/// `network::Message::RequestVote` is variant 0; the byte identity with the real encoder is
+/// verified at run time before the mirror is used
+#[derive(serde::Serialize)]
+enum MsgMirror {
+    RequestVote(RvMirror),
+}
+
+#[derive(Clone, Debug)]
+struct HostileSparse {
+    dimension: usize,
+    positions: Vec<u64>,
+    values: Vec<f32>,
+}
+
+#[derive(Clone, Copy, Debug, Default)]
+struct SparseFeatures {
+    unsorted: bool,
+    duplicate: bool,
+    out_of_range: bool,
+    /// an out-of-range position precedes an in-range one
+    oob_before_in_range: bool,
+    above_u32: bool,
+    count_mismatch: bool,
+}
+impl SparseFeatures {
+    fn of(h: &HostileSparse) -> SparseFeatures {
+        let d = h.dimension as u64;
+        let mut f = SparseFeatures::default();
+        let mut seen = BTreeSet::new();
+        let mut oob_seen = false;
+        for (i, &p) in h.positions.iter().enumerate() {
+            if i > 0 && h.positions[i - 1] > p {
+                f.unsorted = true;
+            }
+            if !seen.insert(p) {
+                f.duplicate = true;
+            }
+            if p >= d {
+                f.out_of_range = true;
+                oob_seen = true;
+            } else if oob_seen {
+                f.oob_before_in_range = true;
+            }
+            if p > u32::MAX as u64 {
+                f.above_u32 = true;
+            }
+        }
+        f.count_mismatch = h.positions.len() != h.values.len();
+        f
+    }
+    /// sorted, unique, in range, one value per position: what `compress_sparse` documents
+    fn honest(&self) -> bool {
+        !(self.unsorted || self.duplicate || self.out_of_range || self.count_mismatch)
+    }
+    /// a well-defined set of (position, value) pairs, in whatever order
+    fn pair_set(&self) -> bool {
+        !(self.duplicate || self.out_of_range || self.count_mismatch)
+    }
+    fn count(&self, part: &str, r: &mut Report) {
+        for (on, name) in [
+            (self.honest(), "honest-control"),
+            (self.unsorted, "unsorted"),
+            (self.duplicate, "duplicate"),
+            (self.out_of_range, "out-of-range"),
+            (self.oob_before_in_range, "out-of-range-before-in-range"),
+            (self.above_u32, "above-u32"),
+            (self.count_mismatch, "count-mismatch"),
+        ] {
+            if on {
+                r.count(&format!("{}:sparse[{}]", part, name), 1);
+            }
+        }
+    }
+}
+
+fn gen_hostile_sparse(rng: &mut Rng, extreme_dimensions: bool) -> HostileSparse {
+    let dimension: usize = match rng.below(10) {
+        0 => 0,
+        1 => 1,
+        2 | 3 => 2 + rng.below(15),
+        4..=6 => 2 + rng.below(64),
+        7 => 2 + rng.below(5000),
+        _ if extreme_dimensions => *rng.pick(&[u32::MAX as usize - 1, u32::MAX as usize, u32::MAX as usize + 1, 1usize << 40, usize::MAX / 4, usize::MAX]),
+        _ => 2 + rng.below(300),
+    };
+    let n = match rng.below(6) {
+        0 => 0,
+        1 => 1,
+        2 => 2,
+        _ => 2 + rng.below(24),
+    };
+    let hostile_atoms = rng.chance(3, 4);
+    let d = dimension as u64;
+    let mut pos: Vec<u64> = Vec::with_capacity(n);
+    for _ in 0..n {
+        let inr = if dimension == 0 { 0 } else { rng.below(dimension.min(1 << 31)) as u64 };
+        let p = if !hostile_atoms {
+            inr
+        } else {
+            match rng.below(14) {
+                0 => d,
+                1 => d.saturating_add(1),
+                2 => d.saturating_add(rng.below(300) as u64),
+                3 => d.saturating_sub(1),
+                4 => (1u64 << 32) + inr, // comes back into range when cut to 32 bits
+                5 => *rng.pick(&U64_EDGES),
+                6 => u32::MAX as u64 - rng.below(2) as u64,
+                _ => inr,
+            }
+        };
+        pos.push(p);
+    }
+    if rng.bool() {
+        let set: BTreeSet<u64> = pos.iter().copied().collect();
+        pos = set.into_iter().collect();
+        rng.shuffle(&mut pos);
+    } else if !pos.is_empty() && rng.bool() {
+        let (a, b) = (rng.below(pos.len()), rng.below(pos.len()));
+        pos[a] = pos[b];
+    }
+    match rng.below(5) {
+        0 | 1 => pos.sort_unstable(),
+        2 => pos.sort_unstable_by(|a, b| b.cmp(a)),
+        _ => {} // as generated / shuffled
+    }
+    let nv = if rng.chance(1, 6) {
+        match rng.below(4) {
+            0 => 0,
+            1 => pos.len().saturating_sub(1 + rng.below(3)),
+            _ => pos.len() + 1 + rng.below(3),
+        }
+    } else {
+        pos.len()
+    };
+    // distinct recognisable values (so that the oracle can tell which pair an element came from),
+    // with the hostile floats mixed in
+    let values: Vec<f32> = (0..nv).map(|i| if rng.chance(1, 5) { g_f32(rng) } else { (i + 1) as f32 + 0.5 }).collect();
+    HostileSparse { dimension, positions: pos, values }
+}
+
+/// the field as the crate's own encoders build it (the public `compress_sparse` wherever its
+/// signature can carry the value)
+fn hostile_sparse_field(h: &HostileSparse, r: &mut Report, part: &str) -> CompressedValue {
+    if h.positions.len() == h.values.len() && h.positions.iter().all(|&p| p <= u32::MAX as u64) {
+        r.count(&format!("{}:sparse-built-by-compress_sparse", part), 1);
+        let p32: Vec<u32> = h.positions.iter().map(|&p| p as u32).collect();
+        tensor_compress::compress_sparse(h.dimension, &p32, &h.values)
+    } else {
+        CompressedValue::VectorSparse { dimension: h.dimension, positions: compress_ids(&h.positions), values: h.values.clone() }
+    }
+}
+
+/// judges `decompress_vector` on a sparse field. `field` is the value to decode (as built, or as it
+/// came back from a container), `h` what was encoded
+fn judge_sparse_field(cx: &mut GCtx, field: &CompressedValue, h: &HostileSparse, level: &str) -> bool {
+    let f = SparseFeatures::of(h);
+    let pos_bytes: Vec<u8> = match field {
+        CompressedValue::VectorSparse { positions, .. } => positions.clone(),
+        _ => Vec::new(),
+    };
+    let how = format!("{} VectorSparse{{dimension: {}, positions: compress_ids({:?}), {} values}} [{:?}]", level, h.dimension, h.positions, h.values.len(), f);
+    let input_len = pos_bytes.len() + 4 * h.values.len();
+    let limit = 4 * h.dimension + 64 * input_len + SLACK;
+    let res = measured(|| decompress_vector(field));
+    let d = match cx.judge("decompress_vector(VectorSparse)", &how, &pos_bytes, limit, "4*dimension+64*input+64KiB", res) {
+        None => return false,
+        Some(Err(e)) => {
+            if f.honest() {
+                cx.r.violation("g-hostile:honest-sparse-field-rejected", format!("{}: {}", how, e), cx.replay());
+                return false;
+            }
+            cx.r.count(&format!("{}:sparse-rejected", cx.part), 1);
+            return true;
+        }
+        Some(Ok(d)) => d,
+    };
+    cx.r.count(&format!("{}:sparse-decoded-ok", cx.part), 1);
+    if d.len() != h.dimension {
+        cx.r.violation("g-hostile:sparse-field-decoded-with-wrong-dimension", format!("{}: decoded {} elements", how, d.len()), cx.replay());
+        return false;
+    }
+    // content is demanded only where the encoded value is well defined: the pairs form a set (unique
+    // in-range positions, one value each), listed in whatever order
+    if f.pair_set() {
+        let mut want = vec![0u32; h.dimension];
+        for (&p, &v) in h.positions.iter().zip(&h.values) {
+            want[p as usize] = v.to_bits();
+        }
+        if let Some(i) = d.iter().zip(&want).position(|(x, w)| if f32::from_bits(*w) == 0.0 { *x != 0.0 } else { x.to_bits() != *w }) {
+            cx.r.violation(
+                if f.honest() { "g-hostile:honest-sparse-field-altered" } else { "g-hostile:unsorted-sparse-field-altered" },
+                format!("{}: element {} has bits {:08x}, encoded {:08x}", how, i, d[i].to_bits(), want[i]),
+                cx.replay(),
+            );
+            return false;
+        }
+        cx.r.count(&format!("{}:sparse-fields-exact", cx.part), 1);
+    }
+    cx.r.count(&format!("{}:sparse-elements-checked", cx.part), d.len() as u64);
+    true
+}
+
+#[derive(Clone, Debug)]
+struct HostileTt {
+    value: CompressedValue,
+    class: &'static str,
+    /// honest control: must decode
+    consistent: bool,
+    /// checked product of the declared shape
+    product: Option<usize>,
+    original_dim: usize,
+    data_len: usize,
+    zero_rank: bool,
+}
+
+fn gen_hostile_tt(rng: &mut Rng) -> HostileTt {
+    const HUGE: [usize; 5] = [1 << 40, 1 << 62, usize::MAX / 2, usize::MAX - 1, usize::MAX];
+    let n = 1 + rng.below(4);
+    let mut shape: Vec<usize> = (0..n).map(|_| 1 + rng.below(5)).collect();
+    let mut ranks: Vec<usize> = vec![1];
+    for _ in 1..n {
+        ranks.push(1 + rng.below(3));
+    }
+    ranks.push(1);
+    let mut cores: Vec<TTCore> = (0..n)
+        .map(|k| {
+            let len = ranks[k] * shape[k] * ranks[k + 1];
+            TTCore { data: (0..len).map(|_| rng.f64_in(-1.0, 1.0) as f32).collect(), shape: (ranks[k], shape[k], ranks[k + 1]) }
+        })
+        .collect();
+    let mut original_dim: usize = shape.iter().product();
+    let hostile_num = |rng: &mut Rng, old: usize| -> usize {
+        match rng.below(6) {
+            0 => 0,
+            1 => old + 1,
+            2 => old.saturating_sub(1),
+            3 => old + 1 + rng.below(7),
+            _ => *rng.pick(&HUGE),
+        }
+    };
+    let k = rng.below(n);
+    let class = match rng.below(13) {
+        0 | 1 => "consistent-control",
+        12 if n >= 2 => {
+            // a chain through a zero rank: the two cores at the bond hold no data, every product
+            // r1*mode*r2 still equals the data length
+            let b = rng.below(n - 1);
+            cores[b].shape.2 = 0;
+            cores[b].data.clear();
+            cores[b + 1].shape.0 = 0;
+            cores[b + 1].data.clear();
+            "zero-rank-chain"
+        }
+        2 => {
+            cores[k].shape.0 = hostile_num(rng, cores[k].shape.0);
+            "left-rank-changed"
+        }
+        3 => {
+            cores[k].shape.1 = hostile_num(rng, cores[k].shape.1);
+            "core-mode-changed"
+        }
+        4 => {
+            cores[k].shape.2 = hostile_num(rng, cores[k].shape.2);
+            "right-rank-changed"
+        }
+        5 => {
+            match rng.below(3) {
+                0 => cores[k].data.clear(),
+                1 => {
+                    cores[k].data.pop();
+                }
+                _ => cores[k].data.extend((0..1 + rng.below(5)).map(|_| 1.0f32)),
+            }
+            "core-data-count-changed"
+        }
+        6 => {
+            shape[k] = hostile_num(rng, shape[k]);
+            "shape-entry-changed"
+        }
+        7 => {
+            if rng.bool() {
+                cores.remove(k);
+            } else {
+                let c = cores[k].clone();
+                cores.insert(k, c);
+            }
+            "core-count-changed"
+        }
+        8 => {
+            if rng.bool() {
+                shape.pop();
+            } else {
+                shape.push(1 + rng.below(4));
+            }
+            "shape-length-changed"
+        }
+        9 => {
+            original_dim = hostile_num(rng, original_dim);
+            if rng.bool() {
+                ranks = g_vec(rng, 5, |r| hostile_num(r, 1));
+            }
+            "original-dim-or-rank-list-changed"
+        }
+        10 => {
+            // self-consistent cores whose chain does not start / end with rank 1
+            let r = 2 + rng.below(2);
+            if rng.bool() {
+                let c = &mut cores[0];
+                c.shape.0 = r;
+                c.data = vec![0.5; r * c.shape.1 * c.shape.2];
+            } else {
+                let c = &mut cores[n - 1];
+                c.shape.2 = r;
+                c.data = vec![0.5; c.shape.0 * c.shape.1 * r];
+            }
+            "open-chain"
+        }
+        _ => {
+            for s in shape.iter_mut() {
+                *s = *rng.pick(&HUGE);
+            }
+            "shape-product-overflows"
+        }
+    };
+    let product = shape.iter().try_fold(1usize, |a, &b| a.checked_mul(b));
+    HostileTt {
+        consistent: class == "consistent-control",
+        class,
+        product,
+        original_dim,
+        data_len: cores.iter().map(|c| c.data.len()).sum(),
+        zero_rank: cores.iter().any(|c| c.shape.0 == 0 || c.shape.2 == 0),
+        value: CompressedValue::VectorTT { cores, original_dim, shape, ranks },
+    }
+}
+
+fn judge_tt_field(cx: &mut GCtx, field: &CompressedValue, t: &HostileTt, level: &str) -> bool {
+    // a chain through a zero rank holds no data whatever its mode sizes are: such a field can
+    // legitimately claim any number of (zero) elements, and no ceiling is declared for that
+    let small = t.product.is_some_and(|p| p <= 1 << 16);
+    if !small && t.zero_rank {
+        cx.r.count(&format!("{}:skipped-legitimately-expansive", cx.part), 1);
+        return true;
+    }
+    let how = format!("{} VectorTT [{}] {:?}", level, t.class, field);
+    let how = if how.len() > 700 { format!("{}...", &how[..700]) } else { how };
+    // without a zero rank every consistent core holds at least `mode` values, so the output of a
+    // successful decode is bounded by the product of the data lengths; a field claiming more
+    // cannot be decoded and must not be allocated for
+    let out = if small { t.product.unwrap_or(0) } else { 0 };
+    let limit = 64 * out + 256 * 4 * t.data_len + SLACK;
+    let res = measured(|| decompress_vector(field).map(|v| v.len()));
+    match cx.judge("decompress_vector(VectorTT)", &how, &[], limit, "64*product(shape)+1024*core_values+64KiB", res) {
+        None => false,
+        Some(Err(e)) => {
+            if t.consistent {
+                cx.r.violation("g-hostile:consistent-tensor-train-field-rejected", format!("{}: {}", how, e), cx.replay());
+                return false;
+            }
+            cx.r.count(&format!("{}:tt-rejected", cx.part), 1);
+            true
+        }
+        Some(Ok(len)) => {
+            cx.r.count(&format!("{}:tt-decoded-ok", cx.part), 1);
+            if t.consistent && Some(len) != t.product {
+                cx.r.violation(
+                    "g-hostile:consistent-tensor-train-field-decoded-with-wrong-length",
+                    format!("{}: decoded {} elements; declared shape has {:?}, original_dim {}", how, len, t.product, t.original_dim),
+                    cx.replay(),
+                );
+                return false;
+            }
+            true
+        }
+    }
+}
+
+fn gen_hostile_rle(rng: &mut Rng) -> RleEncoded<i64> {
+    let n = rng.below(8);
+    let values: Vec<i64> = (0..n).map(|_| g_u64(rng) as i64).collect();
+    let runs = match rng.below(4) {
+        0 => n,
+        1 => n.saturating_sub(1 + rng.below(2)),
+        _ => n + rng.below(4),
+    };
+    let run_lengths: Vec<u32> = (0..runs)
+        .map(|i| {
+            if i < n {
+                *rng.pick(&[0u32, 0, 1, 1, 2, 3, 255, 256, 1000, 40_000])
+            } else {
+                // run lengths without a value
+                *rng.pick(&[0u32, 1, 1000, 1 << 20, 1 << 26])
+            }
+        })
+        .collect();
+    RleEncoded { values, run_lengths }
+}
+
+fn judge_rle_field(cx: &mut GCtx, field: &CompressedValue, enc: &RleEncoded<i64>, level: &str) -> bool {
+    let pairs = enc.values.len().min(enc.run_lengths.len());
+    let want: Vec<i64> = enc.values[..pairs].iter().zip(&enc.run_lengths[..pairs]).flat_map(|(v, &c)| std::iter::repeat(*v).take(c as usize)).collect();
+    let how = format!("{} RleInt{{values: {:?}, run_lengths: {:?}}}", level, enc.values, enc.run_lengths);
+    let input_len = 8 * enc.values.len() + 4 * enc.run_lengths.len();
+    let limit = 16 * want.len() + 64 * input_len + SLACK;
+    let res = measured(|| decompress_ints(field));
+    match cx.judge("decompress_ints(RleInt)", &how, &[], limit, "16*decoded_elements+64*input+64KiB", res) {
+        None => false,
+        Some(got) => {
+            if enc.values.len() == enc.run_lengths.len() && got != want {
+                let i = got.iter().zip(&want).position(|(a, b)| a != b).unwrap_or(got.len().min(want.len()));
+                cx.r.violation(
+                    "g-hostile:run-length-field-altered",
+                    format!("{}: decoded {} elements, the paired runs hold {}; first difference at {}", how, got.len(), want.len(), i),
+                    cx.replay(),
+                );
+                return false;
+            }
+            cx.r.count(&format!("{}:rle-decoded-ok", cx.part), 1);
+            true
+        }
+    }
+}
+
+fn judge_ids_field(cx: &mut GCtx, field: &CompressedValue, ids: &[u64], level: &str) -> bool {
+    let bytes: Vec<u8> = match field {
+        CompressedValue::IdList(b) => b.clone(),
+        _ => Vec::new(),
+    };
+    let how = format!("{} IdList(compress_ids({:?}{}))", level, &ids[..ids.len().min(24)], if ids.len() > 24 { "..." } else { "" });
+    let res = measured(|| decompress_vector(field));
+    match cx.judge("decompress_vector(IdList)", &how, &bytes, 64 * bytes.len() + SLACK, "64*input+64KiB", res) {
+        None => false,
+        Some(Err(e)) => {
+            cx.r.violation("g-hostile:id-list-field-rejected", format!("{}: {}", how, e), cx.replay());
+            false
+        }
+        Some(Ok(v)) => {
+            let want: Vec<f32> = ids.iter().map(|&i| i as f32).collect();
+            if let Some(i) = value_eq_f32(&want, &v) {
+                cx.r.violation(
+                    if is_sorted(ids) { "g-hostile:sorted-id-list-field-altered" } else { "g-hostile:unsorted-id-list-field-altered" },
+                    format!("{}: differs at {} ({} ids, {} decoded): {:?} vs {:?}", how, i, ids.len(), v.len(), want.get(i), v.get(i)),
+                    cx.replay(),
+                );
+                return false;
+            }
+            cx.r.count(&format!("{}:ids-decoded-ok", cx.part), 1);
+            true
+        }
+    }
+}
+
+enum HostileField {
+    Sparse(HostileSparse),
+    Tt(HostileTt),
+    Rle(RleEncoded<i64>),
+    Ids(Vec<u64>),
+}
+
+fn gen_hostile_field(rng: &mut Rng, extreme_dimensions: bool, r: &mut Report, part: &str) -> (CompressedValue, HostileField) {
+    match rng.weighted(&[6, 3, 1, 1]) {
+        0 => {
+            let h = gen_hostile_sparse(rng, extreme_dimensions);
+            SparseFeatures::of(&h).count(part, r);
+            (hostile_sparse_field(&h, r, part), HostileField::Sparse(h))
+        }
+        1 => {
+            let t = gen_hostile_tt(rng);
+            r.count(&format!("{}:tt[{}]", part, t.class), 1);
+            (t.value.clone(), HostileField::Tt(t))
+        }
+        2 => {
+            let e = gen_hostile_rle(rng);
+            r.count(&format!("{}:rle[{}]", part, if e.values.len() == e.run_lengths.len() { "paired" } else { "count-mismatch" }), 1);
+            (CompressedValue::RleInt(e.clone()), HostileField::Rle(e))
+        }
+        _ => {
+            let (mut ids, class) = gen_ids(rng);
+            ids.truncate(200);
+            r.count(&format!("{}:ids[{}]", part, class), 1);
+            (CompressedValue::IdList(compress_ids(&ids)), HostileField::Ids(ids))
+        }
+    }
+}
+
+fn judge_hostile_field(cx: &mut GCtx, v: &CompressedValue, f: &HostileField, level: &str) -> bool {
+    match f {
+        HostileField::Sparse(h) => judge_sparse_field(cx, v, h, level),
+        HostileField::Tt(t) => judge_tt_field(cx, v, t, level),
+        HostileField::Rle(e) => judge_rle_field(cx, v, e, level),
+        HostileField::Ids(ids) => judge_ids_field(cx, v, ids, level),
+    }
+}
+
+/// (c) of g-hostile: the wire form of `SparseVector`, alone, in a sequence and inside a network frame
+fn hostile_sparse_wire(cx: &mut GCtx, rng: &mut Rng) -> bool {
+    // a value of the SparseVector shape that the real constructors refuse to build
+    let h = gen_hostile_sparse(rng, true);
+    let f = SparseFeatures::of(&h);
+    let mirror = |h: &HostileSparse| SvMirror { dimension: h.dimension, positions: h.positions.iter().map(|&p| p as u32).collect(), values: h.values.clone() };
+    // judged on the 32-bit positions that are actually on the wire
+    let wire = HostileSparse { dimension: h.dimension, positions: mirror(&h).positions.iter().map(|&p| p as u64).collect(), values: h.values.clone() };
+    let wf = SparseFeatures::of(&wire);
+    if f.above_u32 {
+        cx.r.count("g-hostile:wire:sparse[positions-cut-to-32-bits]", 1);
+    }
+    let valid = wf.honest() && wire.dimension <= tensor_store::SPARSE_MAX_DIMENSION;
+    let nonzero = |p: &[u32], v: &[f32]| -> Vec<(u32, u32)> { p.iter().zip(v).filter(|(_, x)| **x != 0.0).map(|(&p, x)| (p, x.to_bits())).collect() };
+    let wire_nonzero = nonzero(&mirror(&h).positions, &wire.values);
+    wf.count("g-hostile:wire", cx.r);
+    let how = format!("SparseVector wire {{dimension: {}, positions: {:?}, {} values}} [{:?}]", wire.dimension, wire.positions, wire.values.len(), wf);
+    // the mirror must be the encoder's own byte layout: checked on an honest value every time
+    let honest = SparseVector::from_parts(100, vec![1, 5, 99], vec![1.0, -2.0, 3.5]);
+    let honest_m = SvMirror { dimension: 100, positions: vec![1, 5, 99], values: vec![1.0, -2.0, 3.5] };
+    match (bitcode::serialize(&honest), bitcode::serialize(&honest_m)) {
+        (Ok(a), Ok(b)) if a == b => {}
+        _ => {
+            cx.r.inconclusive("g-hostile: the SparseVector mirror no longer matches the real encoding");
+            return true;
+        }
+    }
+    let bytes = match bitcode::serialize(&mirror(&h)) {
+        Ok(b) => b,
+        Err(_) => {
+            cx.r.inconclusive("g-hostile: mirror serialisation failed");
+            return true;
+        }
+    };
+    let limit = 256 * bytes.len() + SERDE_CAP + SLACK;
+    let check_value = |cx: &mut GCtx, s: &SparseVector, what: &str| -> bool {
+        if let Some(why) = sparse_invalid(s) {
+            cx.r.violation("g-hostile:invalid-sparse-vector-accepted", format!("{} returned Ok for {}, but the value breaks the type's invariant: {}", what, how, why), cx.replay());
+            return false;
+        }
+        if valid && (s.dimension() != wire.dimension || nonzero(s.positions(), s.values()) != wire_nonzero) {
+            cx.r.violation("g-hostile:honest-sparse-vector-altered", format!("{}: {} decoded as {}", what, how, canon_sparse(s)), cx.replay());
+            return false;
+        }
+        if s.dimension() <= 1 << 16 {
+            let res = measured(|| (s.to_dense().len(), s.magnitude(), s.dot(s)));
+            if cx.judge("SparseVector methods on decoded value", &how, &[], 4 * s.dimension() + SLACK, "4*dimension+64KiB", res).is_none() {
+                return false;
+            }
+        }
+        true
+    };
+    // alone
+    let res = measured(|| bitcode::deserialize::<SparseVector>(&bytes));
+    match cx.judge("bitcode<SparseVector>", &how, &bytes, limit, "256*input+4MiB+64KiB", res) {
+        None => return false,
+        Some(Err(e)) => {
+            if valid {
+                cx.r.violation("g-hostile:honest-sparse-vector-rejected", format!("{}: {}", how, e), cx.replay());
+                return false;
+            }
+            cx.r.count("g-hostile:wire-rejected", 1);
+        }
+        Some(Ok(s)) => {
+            cx.r.count("g-hostile:wire-decoded-ok", 1);
+            if !check_value(cx, &s, "bitcode::deserialize::<SparseVector>") {
+                return false;
+            }
+        }
+    }
+    // in a sequence next to an honest one
+    if let Ok(b) = bitcode::serialize(&vec![honest_m, mirror(&h)]) {
+        let res = measured(|| bitcode::deserialize::<Vec<SparseVector>>(&b));
+        match cx.judge("bitcode<Vec<SparseVector>>", &how, &b, 256 * b.len() + SERDE_CAP + SLACK, "256*input+4MiB+64KiB", res) {
+            None => return false,
+            Some(Err(_)) => {
+                if valid {
+                    cx.r.violation("g-hostile:honest-sparse-vector-rejected", format!("in a sequence: {}", how), cx.replay());
+                    return false;
+                }
+            }
+            Some(Ok(v)) => {
+                if v.len() != 2 || !check_value(cx, &v[1], "bitcode::deserialize::<Vec<SparseVector>>") {
+                    return false;
+                }
+            }
+        }
+    }
+    // inside a network frame: RequestVote.state_embedding
+    let rv = |e: SvMirror| MsgMirror::RequestVote(RvMirror { term: 7, candidate_id: "n1".into(), last_log_index: 3, last_log_term: 2, state_embedding: e });
+    let codec = LengthDelimitedCodec::new(1 << 20);
+    let real = Message::RequestVote(RequestVote { term: 7, candidate_id: "n1".into(), last_log_index: 3, last_log_term: 2, state_embedding: honest });
+    let same = match (codec.encode(&real), bitcode::serialize(&rv(SvMirror { dimension: 100, positions: vec![1, 5, 99], values: vec![1.0, -2.0, 3.5] }))) {
+        (Ok(f), Ok(m)) => f.len() >= 4 && f[4..] == m[..],
+        _ => false,
+    };
+    if !same {
+        cx.r.inconclusive("g-hostile: the RequestVote mirror no longer matches the real frame encoding");
+        return true;
+    }
+    if let Ok(payload) = bitcode::serialize(&rv(mirror(&h))) {
+        let v2 = rng.bool();
+        let inp: Vec<u8> = if v2 {
+            let mut p = vec![0u8];
+            p.extend_from_slice(&payload);
+            p
+        } else {
+            payload
+        };
+        let declared = if v2 { (1usize << 20).max(tcpc::MAX_DECOMPRESSED_SIZE) } else { 1 << 20 };
+        let res = measured(|| if v2 { codec.decode_payload_v2(&inp) } else { codec.decode_payload(&inp) });
+        match cx.judge(if v2 { "decode_payload_v2" } else { "decode_payload" }, &format!("RequestVote carrying {}", how), &inp, declared + 256 * inp.len() + SERDE_CAP + SLACK, "max_frame_length(+MAX_DECOMPRESSED_SIZE)+256*input+4MiB+64KiB", res) {
+            None => return false,
+            Some(Err(_)) => {
+                if valid {
+                    cx.r.violation("g-hostile:honest-sparse-vector-rejected", format!("inside a RequestVote frame: {}", how), cx.replay());
+                    return false;
+                }
+                cx.r.count("g-hostile:frame-rejected", 1);
+            }
+            Some(Ok(Message::RequestVote(m))) => {
+                cx.r.count("g-hostile:frame-decoded-ok", 1);
+                if !check_value(cx, &m.state_embedding, "decode_payload(RequestVote)") {
+                    return false;
+                }
+                let validator = CompositeValidator::new(MessageValidationConfig::default());
+                let msg = Message::RequestVote(m);
+                let res = measured(|| {
+                    let _ = format!("{:?}", msg);
+                    let _ = validator.validate(&msg, &"peer".to_string());
+                    bitcode::serialize(&msg).is_ok()
+                });
+                if cx.judge("use of decoded Message (Debug, validate, re-serialize)", &how, &inp, usize::MAX, "-", res).is_none() {
+                    return false;
+                }
+            }
+            Some(Ok(other)) => {
+                cx.r.violation("g-hostile:frame-decoded-as-other-message", format!("{} decoded as {}", how, other.type_name()), cx.replay());
+                return false;
+            }
+        }
+    }
+    true
+}
+
+fn g_hostile_case(cx: &mut GCtx) {
+    let mut rng = Rng::new(cx.case_seed);
+    let part = cx.part.to_string();
+    // (a) value level: the field as the encoders built it
+    let mut fields: Vec<(CompressedValue, HostileField)> = Vec::new();
+    for _ in 0..1 + rng.below(4) {
+        fields.push(gen_hostile_field(&mut rng, false, cx.r, &part));
+    }
+    let mut h = 0u64;
+    for (v, f) in &fields {
+        if !judge_hostile_field(cx, v, f, "as built:") {
+            return;
+        }
+    }
+    // (b) container level: the same fields after a trip through the snapshot container
+    let mut map = BTreeMap::new();
+    for (k, (v, _)) in fields.iter().enumerate() {
+        map.insert(format!("f{}", k), v.clone());
+    }
+    let snap = CompressedSnapshot { header: Header::new(CompressionConfig::default(), 1), entries: vec![CompressedEntry { key: "k".into(), fields: map }] };
+    match snap.serialize() {
+        Ok(bytes) => {
+            h = hash_combine(h, hash_bytes(&bytes));
+            let res = measured(|| CompressedSnapshot::deserialize(&bytes));
+            match cx.judge("CompressedSnapshot::deserialize", "container of hostile fields", &bytes, 256 * bytes.len() + SERDE_CAP + SLACK, "256*input+4MiB+64KiB", res) {
+                None => return,
+                Some(Err(e)) => {
+                    cx.r.violation("g-hostile:structurally-valid-snapshot-rejected", format!("deserialize(serialize(s)) failed: {}", e), cx.replay());
+                    return;
+                }
+                Some(Ok(back)) => {
+                    for (k, (_, f)) in fields.iter().enumerate() {
+                        match back.entries.first().and_then(|e| e.fields.get(&format!("f{}", k))) {
+                            Some(v) => {
+                                if !judge_hostile_field(cx, v, f, "from a decoded snapshot:") {
+                                    return;
+                                }
+                            }
+                            None => {
+                                cx.r.violation("g-hostile:snapshot-lost-a-field", format!("field f{} missing after deserialize(serialize(s))", k), cx.replay());
+                                return;
+                            }
+                        }
+                    }
+                    cx.r.count("g-hostile:containers-decoded", 1);
+                }
+            }
+        }
+        Err(_) => cx.r.count("g-hostile:container-serialize-error", 1),
+    }
+    // (c) the wire form of SparseVector
+    if !hostile_sparse_wire(cx, &mut rng) {
+        return;
+    }
+    cx.r.eval(hash_combine(h, cx.case_seed), true);
+}
+
+// ---- g-hostfile: the same hostile fields in a snapshot FILE, through the store's loader ----------
+
+fn g_hostfile_case(cx: &mut GCtx, dir: &Path) {
+    let mut rng = Rng::new(cx.case_seed);
+    let part = cx.part.to_string();
+    let path = fresh_path(dir, "hsnap");
+    let mut entries = Vec::new();
+    let mut expect: Vec<(String, String, HostileField)> = Vec::new();
+    let mut what = Vec::new();
+    for i in 0..1 + rng.below(2) {
+        let key = format!("k{}", i);
+        let mut fields = BTreeMap::new();
+        fields.insert("n".to_string(), CompressedValue::Scalar(CompressedScalar::Int(i as i64)));
+        for k in 0..1 + rng.below(2) {
+            let name = format!("f{}", k);
+            let (v, f) = loop {
+                let (v, f) = gen_hostile_field(&mut rng, true, &mut Report::new(), &part);
+                // the loader expands these without a declared ceiling: only small claims
+                let ok = match &f {
+                    HostileField::Tt(t) => t.product.is_some_and(|p| p <= 1 << 16) || !t.zero_rank,
+                    _ => true,
+                };
+                if ok {
+                    break (v, f);
+                }
+            };
+            match &f {
+                HostileField::Sparse(h) => {
+                    SparseFeatures::of(h).count(&part, cx.r);
+                    if h.dimension > tensor_store::SPARSE_MAX_DIMENSION {
+                        cx.r.count("g-hostfile:sparse[dimension-above-MAX_DIMENSION]", 1);
+                    } else if h.dimension >= u32::MAX as usize - 1 {
+                        cx.r.count("g-hostfile:sparse[dimension-at-MAX_DIMENSION]", 1);
+                    }
+                    what.push(format!("{}.{} = VectorSparse{{dimension: {}, positions: compress_ids({:?}), {} values}}", key, name, h.dimension, h.positions, h.values.len()));
+                }
+                HostileField::Tt(t) => {
+                    cx.r.count(&format!("{}:tt[{}]", part, t.class), 1);
+                    what.push(format!("{}.{} = VectorTT[{}]", key, name, t.class));
+                }
+                HostileField::Rle(e) => what.push(format!("{}.{} = RleInt{{{} values, run_lengths {:?}}}", key, name, e.values.len(), e.run_lengths)),
+                HostileField::Ids(ids) => what.push(format!("{}.{} = IdList({} ids)", key, name, ids.len())),
+            }
+            fields.insert(name.clone(), v);
+            expect.push((key.clone(), name, f));
+        }
+        entries.push(CompressedEntry { key, fields });
+    }
+    let snap = CompressedSnapshot { header: Header::new(CompressionConfig::default(), entries.len() as u64), entries };
+    let bytes = match snap.serialize() {
+        Ok(b) => b,
+        Err(_) => {
+            cx.r.inconclusive("g-hostfile: serialize failed");
+            return;
+        }
+    };
+    if std::fs::write(&path, &bytes).is_err() {
+        cx.r.inconclusive("scratch write failed");
+        return;
+    }
+    let how = format!("snapshot file built by CompressedSnapshot::serialize with {}", what.join("; "));
+    let how = if how.len() > 900 { format!("{}...", &how[..900]) } else { how };
+    // allocation is not judged here: slab construction has no declared ceiling
+    let res = measured(|| {
+        TensorStore::load_snapshot_compressed(&path).map(|s| {
+            let mut got: Vec<Option<TensorValue>> = Vec::new();
+            for (key, name, _) in &expect {
+                got.push(s.get(key).ok().and_then(|t| t.get(name).cloned()));
+            }
+            got
+        })
+    });
+    cleanup(&path);
+    match cx.judge("TensorStore::load_snapshot_compressed", &how, &bytes, usize::MAX, "-", res) {
+        None => return,
+        Some(Err(_)) => cx.r.count("g-hostfile:rejected", 1),
+        Some(Ok(got)) => {
+            cx.r.count("g-hostfile:loaded-ok", 1);
+            for ((key, name, f), g) in expect.iter().zip(got) {
+                let (h, s) = match (f, g) {
+                    (HostileField::Sparse(h), Some(TensorValue::Sparse(s))) => (h, s),
+                    _ => continue,
+                };
+                cx.r.count("g-hostfile:sparse-fields-loaded", 1);
+                if let Some(why) = sparse_invalid(&s) {
+                    cx.r.violation("g-hostfile:invalid-sparse-vector-loaded", format!("{}: {}.{} loaded as {} which breaks the type's invariant: {}", how, key, name, canon_sparse(&s), why), cx.replay());
+                    return;
+                }
+                let feat = SparseFeatures::of(h);
+                if feat.honest() && !feat.above_u32 && h.dimension <= tensor_store::SPARSE_MAX_DIMENSION {
+                    // the honest control: the non-zero pairs, exactly
+                    let want: Vec<(u32, u32)> = h.positions.iter().zip(&h.values).filter(|(_, v)| **v != 0.0).map(|(&p, v)| (p as u32, v.to_bits())).collect();
+                    let have: Vec<(u32, u32)> = s.positions().iter().zip(s.values()).map(|(&p, v)| (p, v.to_bits())).collect();
+                    if s.dimension() != h.dimension || want != have {
+                        cx.r.violation("g-hostfile:honest-sparse-field-altered", format!("{}: {}.{} loaded as {}", how, key, name, canon_sparse(&s)), cx.replay());
+                        return;
+                    }
+                    cx.r.count("g-hostfile:honest-sparse-fields-exact", 1);
+                }
+            }
+        }
+    }
+    cx.r.eval(hash_bytes(&bytes), true);
+}
+
 // ------------------------------------------------------------------------------------------------
 // part tables
 // ------------------------------------------------------------------------------------------------
@@ -2847,6 +3690,8 @@ const PARTS: &[PartSpec] = &[
     PartSpec { name: "g-walraft", evals_counter: "evals:g-walraft", quick: 600, thorough: 20000, budget_q: 25, budget_t: 400, floor: 20, garbage: true, chunk: 40 },
     PartSpec { name: "g-waltx", evals_counter: "evals:g-waltx", quick: 600, thorough: 20000, budget_q: 25, budget_t: 400, floor: 20, garbage: true, chunk: 40 },
     PartSpec { name: "g-snapfile", evals_counter: "evals:g-snapfile", quick: 96, thorough: 2400, budget_q: 25, budget_t: 400, floor: 6, garbage: true, chunk: 8 },
+    PartSpec { name: "g-hostile", evals_counter: "evals:g-hostile", quick: 12000, thorough: 600000, budget_q: 25, budget_t: 400, floor: 300, garbage: true, chunk: 500 },
+    PartSpec { name: "g-hostfile", evals_counter: "evals:g-hostfile", quick: 1200, thorough: 60000, budget_q: 25, budget_t: 400, floor: 40, garbage: true, chunk: 50 },
 ];
 
 fn part_salt(name: &str) -> u64 {
@@ -2907,6 +3752,8 @@ fn run_garbage_case_inner(part: &str, s: u64, dir: &Path, r: &mut Report) {
         "g-comp" => g_comp_case(&mut cx),
         "g-walstore" | "g-walraft" | "g-waltx" => g_wal_case(&mut cx, dir),
         "g-snapfile" => g_snapfile_case(&mut cx, dir),
+        "g-hostile" => g_hostile_case(&mut cx),
+        "g-hostfile" => g_hostfile_case(&mut cx, dir),
         _ => cx.r.inconclusive("unknown part"),
     }
 }
@@ -3236,6 +4083,30 @@ fn main() {
             for p in &gparts {
                 floors.push((p.evals_counter, p.floor));
             }
+            // the hostile families must actually have been fed to the decoders (and the controls too)
+            if gparts.iter().any(|p| p.name == "g-hostile") {
+                for c in [
+                    "g-hostile:sparse[honest-control]",
+                    "g-hostile:sparse[unsorted]",
+                    "g-hostile:sparse[duplicate]",
+                    "g-hostile:sparse[out-of-range-before-in-range]",
+                    "g-hostile:sparse[count-mismatch]",
+                    "g-hostile:sparse-decoded-ok",
+                    "g-hostile:tt[consistent-control]",
+                    "g-hostile:tt-rejected",
+                    "g-hostile:wire:sparse[out-of-range]",
+                    "g-hostile:wire:sparse[unsorted]",
+                    "g-hostile:wire-rejected",
+                    "g-hostile:frame-decoded-ok",
+                ] {
+                    floors.push((c, 40));
+                }
+            }
+            if gparts.iter().any(|p| p.name == "g-hostfile") {
+                for c in ["g-hostfile:sparse[honest-control]", "g-hostfile:sparse[out-of-range]", "g-hostfile:sparse[unsorted]"] {
+                    floors.push((c, 10));
+                }
+            }
         }
     }
     if args.replay.is_some() {
@@ -3243,7 +4114,7 @@ fn main() {
     }
     let meta = Meta {
         property: "C20",
-        rule: "round trip: one evaluation = one generated value (id list / run-length data / sparse vector / snapshot container + vector field / log of 1-30 records / network message through one codec configuration / byte buffer / low-TT-rank vector) encoded and decoded by the real code and compared NaN-aware and map-order-free; distinct by hash of the encoding; non-trivial if the value is non-empty (>= 2 ids, >= 2 run elements, >= 1 non-zero, accepted by the encoder). garbage: one evaluation = one valid encoding together with all its hostile variants (every truncation and single-bit flip when <= 40 bytes, else a sample; random strings; overwrites; hostile length prefixes), each fed to the real decoder under the counting allocator; distinct by hash of the inputs; per-input counts are in '<part>:inputs'.",
+        rule: "round trip: one evaluation = one generated value (id list / run-length data / sparse vector / snapshot container + vector field / log of 1-30 records / network message through one codec configuration / byte buffer / low-TT-rank vector) encoded and decoded by the real code and compared NaN-aware and map-order-free; distinct by hash of the encoding; non-trivial if the value is non-empty (>= 2 ids, >= 2 run elements, >= 1 non-zero, accepted by the encoder). garbage: one evaluation = one valid encoding together with all its hostile variants (every truncation and single-bit flip when <= 40 bytes, else a sample; random strings; overwrites; hostile length prefixes), each fed to the real decoder under the counting allocator; distinct by hash of the inputs; per-input counts are in '<part>:inputs'. hostile (g-hostile, g-hostfile): one evaluation = 1-4 snapshot fields (sparse / tensor-train / run-length / id list) built by the crate's own encoders from values that break the decoder's preconditions (unsorted, duplicate, out-of-range and >32-bit positions, mismatched counts, extreme dimensions, cores that do not chain) plus honest controls, decoded as built, after a trip through the snapshot container, as a SparseVector wire value (alone, in a sequence, inside a RequestVote frame) and - g-hostfile - from a snapshot file through TensorStore::load_snapshot_compressed; verdict per decode: Err or a valid value (declared dimension, type invariants), well-defined values (controls, pair sets in any order, paired runs, id lists) exact; what was fed is counted per family in '<part>:sparse[...]', '<part>:tt[...]', '<part>:wire:sparse[...]'.",
         assumptions: vec![
             "zeros of a dense vector are 'absence' for SparseVector: the sign of a zero is not required to survive; every non-zero element must come back bit for bit".into(),
             "vector fields of the quantising snapshot format are compared by value (an id list passes through integers)".into(),
@@ -3252,6 +4123,7 @@ fn main() {
             "allocation ceilings: max_frame_length (v1) / max(max_frame_length, MAX_DECOMPRESSED_SIZE) (v2) + 256*input + 64 KiB for frames; MAX_DECOMPRESSED_SIZE for decompress; 64*file_length + 64 KiB for log replay; 256*input + 4 MiB (serde pre-allocates at most 1 MiB worth of elements for an untrusted length, up to 2.2 MB for a HashMap) + 64 KiB for bitcode decoders without a declared limit, and the same 4 MiB on top of every ceiling that includes a bitcode decode; inherently expansive decoders (run lengths, sparse->dense, tensor-train) are only called when the element count they claim is small and are judged on panics".into(),
             "with record checksums on, replay of a corrupted log must return Err or a prefix of the appended records (a CRC collision, 2^-32 per record, would be a false alarm)".into(),
             "the harness profile has overflow-checks and debug-assertions on: an arithmetic-overflow panic reported here wraps silently in a default release build".into(),
+            "hostile-but-well-formed fields: a sparse field whose pairs form a set (unique in-range positions, one value each) must decode to exactly those pairs in whatever order they are listed (the position list is an id list, and id lists are exact for unsorted input); for lists with duplicates, out-of-range positions or mismatched counts the statement names no value, so only 'Err, or a vector of the declared dimension' is demanded (likewise: content of run-length fields only when every run has a value, length of tensor-train fields only for the consistent control, content of SparseVector wire values only for honest ones - the type's invariants for everything that is accepted); tensor-train fields that chain through a zero rank and claim more than 2^16 elements are not decoded (legitimately expansive, no declared ceiling); hostile SparseVector wire values are built through a serde mirror of the struct whose bytes are compared with the real encoder's on an honest value in every case (a mismatch is inconclusive, never a verdict)".into(),
         ],
         floors,
         exhaustive: false,
